@@ -1110,6 +1110,7 @@ func mainC02(seed uint64, n int, out string, rp *replayInput) {
 		byContents: map[string]Case{}, rootOf: map[string]string{}, byRoot: map[string]Case{}, contentsOf: map[string]string{}, shapes: map[string]bool{}, sigOf: map[string]sigState{},
 	}
 	s.sum.Extra["finding_rules"] = findingRules
+	s.sum.Extra["api_coverage"] = apiCoverage("c02")
 	defer func() {
 		s.w.Close()
 		s.sum.Write(out)
